@@ -25,7 +25,9 @@ RULE = ("(1) the three space/spin tables are translated from the current "
         "a second stream in which contracted indices occur on deltas only "
         "(model agreement only); (3) every evaluate_deltas call made by "
         "wicks during real derivations.  Every recorded call of "
-        "evaluate_deltas on a Mul (including the recursive ones) is one case; "
+        "evaluate_deltas on a Mul (including the recursive ones) is one case "
+        "(plus one terminal check, one hypothesis check per argument list and "
+        "one kernel-evaluated value certificate per call tree); "
         "non-trivial = the call has at least one delta; distinct = distinct "
         "(argument list, targets) text")
 TRUSTED = ["harness/c09_translate.py (fail-closed Python-ast -> Gallina "
@@ -43,7 +45,10 @@ ASSUMPTIONS = ["orbital model: rng Gen s = rng Occ s ++ rng Virt s, "
                "eval_deltas_sound holds for every value-preserving step "
                "between passes)",
                "value claim only for terms in which every contracted index "
-               "occurs on at least one non-delta object (as in the property)"]
+               "occurs on at least one non-delta object (as in the property)",
+               "per-call-tree value certificates (check_trace_sound) hold in "
+               "tensor models that respect the symmetries declared by the "
+               "tensor classes (ADC.Core.Canon.respects)"]
 
 REPO = os.environ.get("VERIF_REPO", "/repo")
 MAX_REPORT = 4
@@ -287,13 +292,17 @@ def structural_checks(ctx, root, label):
 
 
 def run(ctx):
+    import time
     rng = ctx.rng
     quick = ctx.tier == "quick"
+    t0 = time.time()
+    timing = {}
     check_tables(ctx)
+    timing["tables"] = round(time.time() - t0, 1)
 
-    n_valid = 220 if quick else 1500
-    n_naked = 80 if quick else 500
-    n_wicks = 250 if quick else 2500
+    n_valid = 220 if quick else 1200
+    n_naked = 80 if quick else 400
+    n_wicks = 250 if quick else 1200
     units = []        # (label, stream, unit record, explicit?)
     with U.Recorder() as R:
         for stream, count, cover in (("valid", n_valid, True),
@@ -344,6 +353,7 @@ def run(ctx):
             root["info"] = {}
         roots = list(R.roots)
 
+    timing["record"] = round(time.time() - t0, 1)
     seen_w = set()
     n_struct_bad = 0
     for root in roots:
@@ -408,6 +418,14 @@ def run(ctx):
         cases.append(f"check_terminal {U.coq_state_raw(states[0])} "
                      f"{U.coq_opt_idx_list(tgs[0])} {U.coq_state(final)}")
         meta.append(("terminal", label, stream, u, 0, u))
+        # certificate for the whole call tree (theorem check_trace_sound)
+        obs = [states[k] for k in range(1, len(ch))]
+        if isinstance(ch[-1]["expr"], Mul):
+            obs.append(final)
+        cases.append(f"check_trace_top {U.coq_state_raw(states[0])} "
+                     f"{U.coq_opt_idx_list(tgs[0])} "
+                     + adcio.coq_list(U.coq_state(o) for o in obs))
+        meta.append(("trace", label, stream, u, 0, u))
         # hypotheses of the theorems on every observed argument list
         sem = U.coq_opt_idx_list(tgs[0]) if tgs[0] is not None else \
             f"(Some (einstein_targets (sobjs {U.coq_state_raw(states[0])})))"
@@ -416,12 +434,16 @@ def run(ctx):
                 continue
             cases.append(f"check_hyps {U.coq_state_raw(states[k])} {sem}")
             meta.append(("hyps", label, stream, u, k, rec))
+    timing["serialise"] = round(time.time() - t0, 1)
     vals, errs = ctx.coq_eval("steps", cases, header=HEADER, shard=150)
+    timing["coq"] = round(time.time() - t0, 1)
     ctx.obligation("all model evaluations ran", not errs, "; ".join(errs)[:800])
 
     # ---- compare
     bad_units = {}
     hyp = {}
+    term = {}
+    trace = {}
     for v, (what, label, stream, u, k, rec) in zip(vals, meta):
         nd = sum(1 for a in rec["expr"].args
                  if type(a).__name__ == "KroneckerDelta") \
@@ -447,8 +469,13 @@ def run(ctx):
                                           else rec["result"])})
         elif what == "hyps":
             hyp.setdefault(label, []).append(v)
+        elif what == "trace":
+            trace[label] = v
         else:
-            ok = v == "true"
+            # (every delta left is stuck, result is still a Mul): a lone
+            # object is returned as it is by the recursive call
+            term[label] = v
+            ok = v in ("(true, true)", "(true, false)", "(false, false)")
             ctx.obligation(f"result is terminal {label}", ok,
                            f"{v} in={u['expr']} tg={u['tg']} "
                            f"out={u['result']}")
@@ -458,8 +485,10 @@ def run(ctx):
                      "output": str(u["result"])})
 
     # ---- value validation (numeric; sampling, not the proof)
-    n_val = n_skip = n_outside = n_hyp_ok = 0
+    n_val = n_skip = n_outside = n_hyp_ok = n_cert = 0
+    uncert = []
     value_viol = []
+    wf_viol = []
     for label, stream, u in units:
         if not isinstance(u["expr"], Mul):
             continue
@@ -483,18 +512,54 @@ def run(ctx):
                 cov0 = hv[0] is not None and hv[0].endswith("true)")
                 cov_all = all(h is not None and h.endswith("true)")
                               for h in hv)
-                ctx.obligation(f"observed argument lists are well formed "
-                               f"(wf_objsb) {label}", wf_all, str(hv))
+                if not ctx.obligation(f"observed argument lists are well "
+                                      f"formed (wf_objsb) {label}", wf_all,
+                                      str(hv)):
+                    wf_viol.append((
+                        len(u["expr"].args),
+                        f"C09:wf:{u['expr']}|tg={u['tg']}",
+                        "an argument list seen by evaluate_deltas violates "
+                        "the well-formedness hypothesis of the theorems "
+                        "(a delta that is not in the form KroneckerDelta.eval "
+                        "is modelled to leave, or a zero exponent)",
+                        {"input": str(u["expr"]), "targets": str(u["tg"]),
+                         "check_hyps": hv}, False))
                 ctx.obligation(f"python/Coq agree on the coverage "
                                f"hypothesis {label}", cov0 == inside, str(hv))
                 if cov0:
                     ctx.obligation(f"coverage is kept by every observed "
                                    f"step (good_step) {label}", cov_all,
                                    str(hv))
+                    # theorem eval_deltas_terminal_covered: no exception
+                    if not ctx.obligation(
+                            f"covered product: every delta left is stuck "
+                            f"{label}", (term.get(label) or "").startswith(
+                                "(true"), str(term.get(label))):
+                        bad_units.setdefault(label, (u, stream, []))[2].append(
+                            {"terminal_under_coverage": term.get(label),
+                             "output": str(u["result"])})
                     n_hyp_ok += wf_all and cov_all
+                    # kernel-evaluated certificate: result has the value of
+                    # the input in every model (check_trace_sound)
+                    cert = trace.get(label) == "true"
+                    n_cert += cert
+                    if not cert:
+                        uncert.append(f"{label}: {u['expr']} tg={u['tg']} "
+                                      f"-> {u['result']}")
+                        # the only accepted reason: the implementation
+                        # returned 0 because an antisymmetric tensor got a
+                        # repeated index (not part of check_trace)
+                        if not ctx.obligation(
+                                f"covered product with non-zero result has a "
+                                f"kernel-checked value certificate {label}",
+                                u["result"] == 0, str(trace.get(label))):
+                            bad_units.setdefault(
+                                label, (u, stream, []))[2].append(
+                                {"check_trace_top": trace.get(label),
+                                 "output": str(u["result"])})
                 inside = inside and cov0
             diff = value_difference(ctx, u["expr"], u["result"], sem,
-                                    budget=20000 if quick else 60000)
+                                    budget=5000 if quick else 10000)
         except adcio.Unsupported:
             continue
         if diff == "skipped":
@@ -516,12 +581,17 @@ def run(ctx):
                 "evaluate_deltas changed the value of a term in which every "
                 "contracted index occurs on a non-delta object",
                 {"input": str(u["expr"]), "targets": str(u["tg"]),
+                 "neutral": neutral(u),
                  "semantic_targets": str(sem), "output": str(u["result"]),
                  "model_disagreements": bad_units.get(
                      label, (None, None, []))[2],
                  "difference": diff}, True))
             bad_units.pop(label, None)
+    timing["numeric"] = round(time.time() - t0, 1)
+    ctx.extra["timing_cumulative_s"] = timing
     ctx.extra["units_satisfying_theorem_hypotheses"] = n_hyp_ok
+    ctx.extra["units_with_kernel_checked_value_certificate"] = n_cert
+    ctx.extra["covered_units_without_certificate"] = uncert[:20]
     ctx.extra["value_checked_units"] = n_val
     ctx.extra["value_skipped_too_large"] = n_skip
     ctx.extra["units_outside_precondition"] = n_outside
@@ -550,6 +620,7 @@ def run(ctx):
             "the verified pass model (Models/Deltas.v) does not reproduce "
             "evaluate_deltas on this input",
             {"input": str(u["expr"]), "targets": str(u["tg"]),
+             "neutral": neutral(u),
              "output": str(u["result"]), "disagreements": details,
              "difference": diff if isinstance(diff, dict) else None},
             isinstance(diff, dict)))
@@ -558,7 +629,8 @@ def run(ctx):
     ctx.extra["value_violations_total"] = len(value_viol)
     ctx.extra["model_disagreement_units_total"] = len(step_viol)
     known = known_keys()
-    for lst in (value_viol, step_viol):
+    ctx.extra["wf_violations_total"] = len(wf_viol)
+    for lst in (value_viol, step_viol, wf_viol):
         lst.sort(key=lambda v: (not v[4], v[0], v[1]))
         shown = 0
         for size, key, what, rep, found in lst:
@@ -567,6 +639,56 @@ def run(ctx):
                 shown += key not in known
 
 
+def neutral(u):
+    """JSON description of a recorded top-level call, for --replay"""
+    try:
+        tg = targets_of(u)
+        c = U.HashCtx(U.expr_indices(u["expr"]) | set(tg or []))
+        st = U.conv_args(u["expr"], c)
+        return {"product": U.state_to_json(st),
+                "targets": None if tg is None else
+                [[x.space, x.spin, x.name, 0] for x in tg]}
+    except Exception as ex:      # noqa
+        return {"error": repr(ex)}
+
+
 def replay(ctx, rep):
-    print(rep)
-    return 0
+    """re-execute a replay file: rebuild the product, run evaluate_deltas of
+    the current tree on it, compare values numerically and re-run the Coq
+    checks"""
+    import json
+    from adcgen.indices import get_symbols
+    r = rep.get("replay", {})
+    print(json.dumps({k: v for k, v in r.items() if k != "neutral"},
+                     indent=1, default=str)[:4000])
+    neu = r.get("neutral")
+    if not neu or "product" not in neu:
+        print("no reconstructible input in this replay file")
+        return 0
+    expr = U.json_to_expr(neu["product"])
+    tg = None if neu["targets"] is None else [
+        get_symbols(d[2], d[1] if d[1] else None)[0] for d in neu["targets"]]
+    with U.Recorder() as R:
+        out = R(expr) if tg is None else R(expr, tg)
+    print("input   :", expr)
+    print("targets :", tg)
+    print("output  :", out)
+    c = U.HashCtx(U.expr_indices(expr) | set(tg or []))
+    st = U.conv_args(expr, c)
+    back = {c.conv(x): x for x in U.expr_indices(expr)}
+    sem = [back[i] for i in U.einstein_targets(st)] if tg is None else tg
+    inside = U.covered(st, [c.conv(x) for x in sem])
+    diff = value_difference(ctx, expr, out, sem)
+    print("every contracted index on a non-delta object:", inside)
+    print("numeric difference:", diff)
+    u = R.roots[0]
+    ch = chain(u)
+    states = [U.conv_args(x["expr"], c) for x in ch]
+    obs = states[1:] + ([U.conv_args(out, c)]
+                        if isinstance(ch[-1]["expr"], Mul) else [])
+    tgc = None if tg is None else [c.conv(x) for x in tg]
+    vals, errs = ctx.coq_eval("replay", [
+        f"check_trace_top {U.coq_state_raw(st)} {U.coq_opt_idx_list(tgc)} "
+        + adcio.coq_list(U.coq_state(o) for o in obs)], header=HEADER)
+    print("check_trace_top (kernel-checked value certificate):", vals, errs)
+    return 1 if (isinstance(diff, dict) and inside) else 0
